@@ -51,6 +51,10 @@ CHECKS = {
    technique="exhaustive query x history enumeration on a real node with real matchers: after every transaction every subscription's materialised rows and replayed event stream are compared with the query re-evaluated on the node database",
    text="12 queries (projection, expression, WHERE on value / nullable, INNER and LEFT joins, LEFT JOIN with IS NULL filter, alias, composite key, join on composite key, SELECT *, two LEFT JOINs) subscribed at once; every history of 2 (thorough 3) transactions over 16 operations on keys {1,2} of three tables (upserts, updates, set-to-NULL, deletes, re-parenting, orphaning, delete+re-insert in one transaction, two-table transaction), applied locally; after each step: rows of the subscription database == the query on the node database (multisets), replaying snapshot + insert/update/delete events by row id gives the same, change ids consecutive, no event when the key-extended result did not change.",
    note="Known finding listed in known_findings.json (LEFT JOIN, change on the nullable side only); a subscription hit by it is not judged again in that history. Quiescence uses a 1000-key barrier batch through the subscription's own channel plus the matcher.batch_done emit hook. Remote application (process_multiple_changes / buffered apply -> match_changes_from_db_version) is not enumerated yet."),
+ "C14": dict(engine="subs", design="§5 C14",
+   technique="exhaustive enumeration of write sequences x arrival orders x batchings through the real update feed (UpdatesManager / batch_candidates) on a real node, with the last-notification oracle evaluated at every quiescent point",
+   text="Every sequence of 3 (thorough 4) operations {insert/update/delete key 1, insert/delete key 2} starting with an insert, observed (a) on the writing node and (b) on a second node that receives the resulting versions in every arrival order, each alone and all in one batch (thorough: every batching), through process_multiple_changes and the buffered-apply path; plus cold-feed cases that leave the 600 ms aggregation window in place. At every quiescent point: every key whose row changed has a notification, and the last notification for a key says 'delete' exactly when the row is absent.",
+   note="Quiescent points are closed by a sentinel row written on the observing node (FIFO feed). The cache-trimming path (>2000 keys) is not reached."),
  "C18": dict(engine="members", design="§5 C18",
    technique="explicit-state BFS (stateright) whose transition function calls the real Members::{add_member,remove_member,add_rtt}; invariants from a fold-by-newest reference model evaluated in every reachable state",
    text="All reachable states of the member table for 2 actors (3 and 2 identity timestamps), every assignment of address/cluster to identities (64 tables quick, 256 thorough), up/down notifications in any admissible order, RTT samples {1,(40),1000} ms for current and former addresses; presence, identity (ts/address/cluster) and ring/ring0 invariants in every state; shortest counterexample re-derived by FIFO search. 3.4e5 states quick, 3.0e7 thorough, to fix-point.",
@@ -105,7 +109,7 @@ def main():
             {"name": "ingest", "path": "harness/src/bin/ingest.rs", "serves_properties": ["C10"], "kind_free_text": "exhaustive arrival sequences through the real handle_changes loop"},
             {"name": "localtx", "path": "harness/src/bin/localtx.rs", "serves_properties": ["C07"], "kind_free_text": "request-sequence enumeration against a reference model"},
             {"name": "locks", "path": "harness/src/bin/locks.rs", "serves_properties": ["C20"], "kind_free_text": "stateless DFS over hand-polled SplitPool requesters"},
-            {"name": "subs", "path": "harness/src/bin/subs.rs", "serves_properties": ["C11"], "kind_free_text": "query x history enumeration with real matchers"},
+            {"name": "subs", "path": "harness/src/bin/subs.rs", "serves_properties": ["C11", "C14"], "kind_free_text": "query x history enumeration with real matchers / update feeds"},
             {"name": "members", "path": "harness/src/bin/members.rs", "serves_properties": ["C18"], "kind_free_text": "stateright BFS over the real Members methods"},
             {"name": "repl", "path": "harness/src/bin/repl.rs", "serves_properties": ["C01", "C03", "C05", "C06"], "kind_free_text": "replay-from-history explicit-state BFS over 2-3 real nodes"},
             {"name": "pure", "path": "harness/src/bin/pure.rs", "serves_properties": ["C04", "C08"], "kind_free_text": "exhaustive small-scope enumeration of pure functions against set models"},
